@@ -37,3 +37,88 @@ Example C07_ex_escape :
   /\ escape_attr (lit "x""y"%string) = lit "x&quot;y"%string
   /\ unescape (lit "&lt;&amp;lt;&#13;&#9;&unknown;"%string) = [60; 38; 108; 116; 59; 13; 9] ++ lit "&unknown;"%string.
 Proof. vm_compute. repeat split; reflexivity. Qed.
+
+(* ------------------------------------------------------------------------------------------ *)
+From NC Require Import Spec.Rfc6241Schema Proofs.BuildersProofs.
+
+(* Every built request is one <rpc> in the base namespace whose only attribute is message-id =
+   the request's id and whose only child is one element — all profiles, all 19 operations. *)
+Theorem C07_envelope : forall (p : profile) (mid : bytes) (c : opcall) (t : tree),
+  build p mid c = Built t -> exists op, envelope mid t op.
+Proof. exact c07_envelope. Qed.
+Print Assumptions C07_envelope.
+
+(* The operation element has the name and namespace of its schema, no attributes, no text, and
+   its children are schema children in schema order, each at most once — for the 17 operations
+   with a fixed schema, under a prefixed envelope, when caller documents are rooted in the base
+   namespace (see C07_unqualified_root_refuted for what happens otherwise). *)
+Theorem C07_conforms : forall (p : profile) (mid : bytes) (c : opcall) (t : tree),
+  p_ns p = Prefixed -> roots_qualified c = true -> build p mid c = Built t ->
+  exists op, envelope mid t op /\ conforms c op.
+Proof. exact c07_conforms. Qed.
+Print Assumptions C07_conforms.
+
+(* An enumerated argument outside its set (default-operation, test-option, error-option;
+   with-defaults mode outside the advertised modes) never yields a request. *)
+Theorem C07_enum_reject : forall (p : profile) (mid : bytes) (c : opcall),
+  enum_violation c = true -> exists e, build p mid c = Refused e.
+Proof. exact c07_enum_reject. Qed.
+Print Assumptions C07_enum_reject.
+
+(* Partial (per construction, not yet per operation): the two constructions through which every
+   caller string enters a request carry it verbatim — as the single text node of its element,
+   or as the local name of the datastore element — or refuse it locally (characters lxml rejects). *)
+Theorem C07_carries_leaf_partial : forall (q : qname) (s : bytes) (t : tree),
+  leaf q s = POk t -> xml_chars_ok s = true /\ t = Elem q [] (match s with [] => [] | _ => [Text s] end)
+                      /\ (s <> [] -> texts t = [s]).
+Proof. exact c07_carries_leaf. Qed.
+Print Assumptions C07_carries_leaf_partial.
+
+Theorem C07_carries_ds_partial : forall (wha : bytes) (d : dsarg) (t : tree),
+  ds_node wha d = POk t ->
+  exists loc lx, d = DsStr loc lx /\
+    (if contains loc s_css then texts t = (match loc with [] => [] | _ => [loc] end) /\ locals t = [wha; s_url]
+     else lx = true /\ locals t = [wha; loc] /\ texts t = []).
+Proof. exact c07_carries_ds. Qed.
+Print Assumptions C07_carries_ds_partial.
+
+(* ---------------- non-vacuity and the open finding ---------------- *)
+Definition P_default := {| p_ns := Prefixed; p_iosxe := false |}.
+Definition P_alu := {| p_ns := DefaultNs; p_iosxe := false |}.
+Definition ex_cfg (q : qname) : tree := Elem q [] [Elem (qn (lit "urn:x"%string) (lit "a"%string)) [] [Text (lit "1<2"%string)]].
+Definition ex_edit (q : qname) : opcall :=
+  OEditConfig (DsStr (lit "http://h/x"%string) true) (Some s_merge) (Some s_test_only) (Some s_rollback_on_error) (CfgXml (ex_cfg q)).
+
+Example C07_ex_conforms :
+  roots_qualified (ex_edit (b_ s_config)) = true /\
+  match build P_default (lit "m1"%string) (ex_edit (b_ s_config)) with
+  | Built (Elem _ _ [Elem q _ cs]) =>
+      q = b_ s_edit_config /\ child_names cs = [b_ s_target; b_ s_default_operation; b_ s_test_option; b_ s_error_option; b_ s_config]
+  | _ => False
+  end.
+Proof. vm_compute. repeat split; reflexivity. Qed.
+
+(* the open finding C07-unqualified-caller-root, exhibited by the faithful model: a bare <config>
+   root stays un-namespaced under a prefixed envelope and the request does not fit the schema;
+   under a default-namespace envelope (R3) or on iosxe it is read in the base namespace *)
+Example C07_unqualified_root_refuted :
+  match build P_default (lit "m1"%string) (ex_edit (a_ s_config)) with
+  | Built (Elem _ _ [Elem _ _ cs]) =>
+      fits [[b_ s_target]; [b_ s_default_operation]; [b_ s_test_option]; [b_ s_error_option]; [b_ s_config; b_ s_url; b_ s_config_text]]
+           (child_names cs) = false
+  | _ => False
+  end
+  /\ build P_alu (lit "m1"%string) (ex_edit (a_ s_config)) = build P_alu (lit "m1"%string) (ex_edit (b_ s_config))
+  /\ build {| p_ns := Prefixed; p_iosxe := true |} (lit "m1"%string) (ex_edit (a_ s_config))
+     = build P_default (lit "m1"%string) (ex_edit (b_ s_config)).
+Proof. vm_compute. repeat split; reflexivity. Qed.
+
+Example C07_ex_enum_reject :
+  build P_default (lit "m1"%string)
+    (OEditConfig (DsStr (lit "running"%string) true) (Some (lit "Merge"%string)) None None CfgOther) = Refused OperationError
+  /\ build P_default (lit "m1"%string) (OGet None (Some (lit "report"%string))) = Refused WithDefaultsError.
+Proof. vm_compute. split; reflexivity. Qed.
+
+Example C07_ex_chars_rejected :
+  build P_default (lit "m1"%string) (OKillSession [52; 0]) = Refused ValueError.
+Proof. vm_compute. reflexivity. Qed.
